@@ -4,8 +4,8 @@
    models DateModel (helper.go) and CropParamModel (cropparam.go); only statements, each closed by
    [exact lemma], and Print Assumptions. *)
 From Coq Require Import ZArith List Bool Ascii String.
-From Hermes Require Import Util Num Calendar DateModel DateProofs CropParamModel CropParamProofs SoilModel SoilProofs C13Proofs.
-Open Scope Z_scope.
+From Hermes Require Import Util Num Calendar DateModel DateProofs CropParamModel CropParamProofs SoilModel SoilProofs CropSamples C13Proofs.
+Local Open Scope Z_scope.
 
 (* the four date formats (with any separator of length <= 1) of one civil date are read as the
    same day of year and day number — a consequence of C12 *)
